@@ -742,6 +742,13 @@ TwinChecks(ln) ==
           (* whatever another world that loaded the same dump did in the meantime                        *)
           Chk("C02", "loaded-world-alive-set-is-the-dumped-one",
               "reload" \notin DOMAIN ln \/ (ln.reload.ok /\ PAliveSet(PoolOf(ln.reload)) = PAliveSet(PoolOf(ln.dumpThen)))),
+          (* C19: worlds that loaded the same dump are independent - nothing one of them does shows in the dump *)
+          (* value, in what a third world gets from it, or in the sibling's pool                                *)
+          Chk("C19", "worlds-from-one-dump-do-not-interfere",
+              /\ ("dumpNow" \notin DOMAIN ln \/ ln.dumpNow = ln.dumpThen)
+              /\ ("reload" \notin DOMAIN ln \/ (ln.reload.ok /\ PoolOf(ln.reload) = PoolOf(ln.dumpThen)
+                                                /\ SetOf(ln.reload.alive) = SetOf(ln.dumpThen.alive)))
+              /\ PoolOf(a.obs.pool) = PoolOf(b.obs.pool) /\ a.obs.alive = b.obs.alive),
           Chk("C17", "twin-second-dump-identical",
               ln.of # "Dump" \/ (a.res.panic = b.res.panic /\
                                    (a.res.panic \/ (PoolOf(a.dump) = PoolOf(b.dump) /\ SetOf(a.dump.alive) = SetOf(b.dump.alive))))) >>
